@@ -166,7 +166,7 @@ Section MachineBounded.
   Variable budget : nat -> nat -> nat.
   Variable cur : nat.
 
-  Definition ebm := evaluate_bounded (machine_ans ir name args nq) proj budget cur true.
+  Definition ebm := evaluate_bounded (machine_ans ir name args nq) (fun _ => ERuntime) proj budget cur true.
 
   Theorem machine_prefix_mono n m : n <= m ->
     prefix (fst (machine_ans ir name args nq n)) (fst (machine_ans ir name args nq m)) /\
@@ -189,6 +189,6 @@ Section MachineBounded.
   Proof.
     intros G R S1 N T.
     exact (@complete_when_shallow _ _ (machine_ans ir name args nq)
-             (fun n m L => @machine_ans_mono ir name args nq n m L) proj budget cur true st limit G R S1 N T).
+             (fun n m L => @machine_ans_mono ir name args nq n m L) (fun _ => ERuntime) proj budget cur true st limit G R S1 N T).
   Qed.
 End MachineBounded.
